@@ -61,10 +61,16 @@ class Draws:
         import numpy as np
         import artap.utils as U
         import artap.algorithm_swarm as S
-        self.saved = (R.random, R.uniform, U.random, S.uniform, R.getstate(), np.random.get_state())
+        # module-level names the anchored code may have bound (`from random import random, uniform`): replaced only where
+        # they exist - a module that draws differently simply does not get the biased values
+        self.saved = (R.random, R.uniform, getattr(U, "random", None), getattr(S, "uniform", None), R.getstate(), np.random.get_state())
         R.seed(self.rng.getrandbits(64))
         np.random.seed(self.rng.getrandbits(32))
-        R.random, R.uniform, U.random, S.uniform = self.random, self.uniform, self.random, self.uniform
+        R.random, R.uniform = self.random, self.uniform
+        if self.saved[2] is not None:
+            U.random = self.random
+        if self.saved[3] is not None:
+            S.uniform = self.uniform
         return self
 
     def __exit__(self, *a):
@@ -72,7 +78,11 @@ class Draws:
         import numpy as np
         import artap.utils as U
         import artap.algorithm_swarm as S
-        R.random, R.uniform, U.random, S.uniform = self.saved[:4]
+        R.random, R.uniform = self.saved[:2]
+        if self.saved[2] is not None:
+            U.random = self.saved[2]
+        if self.saved[3] is not None:
+            S.uniform = self.saved[3]
         R.setstate(self.saved[4])
         np.random.set_state(self.saved[5])
         return False
@@ -482,6 +492,7 @@ def stream_gen(ctx, n):
         case = {"op": "gen", "lb": lb, "ub": ub, "prec": ps.get("precision"), "u": u}
         cases.append((case, ps, exec_gen(case)))
     ans = ctx.lean(["c08.gen %s|%s|%s|%s" % (rat(c["lb"]), rat(c["ub"]), rat(c["prec"] or 0), rat(c["u"])) for c, _, _ in cases])
+    unexplained = []
     for (case, ps, res), a in zip(cases, ans):
         ctx.case(("gen", case["lb"], case["ub"], case["prec"], case["u"]), nontrivial=case["u"] in SPECIAL_U or case["prec"] is not None,
                  sample=dict(case, value=res.get("x")))
@@ -497,24 +508,42 @@ def stream_gen(ctx, n):
                      "(allowed: %.3g = half the precision / 1e-12)" % (case["lb"], case["ub"], case["prec"], case["u"], x,
                                                                       max(case["lb"] - x, x - case["ub"]), t), dict(case, result=res))
             return
-        val, tie = a.split(" ")
-        val, tie = unrat(val), unrat(tie)
-        prec = case["prec"] or 1e-12
-        z = abs((case["u"] * (case["ub"] - case["lb"]) + case["lb"]) / prec)
-        mag = max(abs(case["lb"]), abs(case["ub"]))
-        if float(tie) < 1e-6 + 1e-14 * z:
-            # the double computation cannot resolve the rounding direction: either neighbour is right, i.e. the value
-            # is within half the precision of y = u*(ub-lb)+lb
-            ctx.count("gen_near_tie")
-            y = Fr(case["u"]) * (Fr(case["ub"]) - Fr(case["lb"])) + Fr(case["lb"])
-            ok = abs(Fr(x) - y) <= Fr(prec) / 2 + Fr(4 * REL_SLACK * mag) + Fr(1e-9) * Fr(prec)
-        else:
-            ok = close(x, float(val)) or abs(x - float(val)) <= 4 * REL_SLACK * mag
-        if not ok:
-            ctx.fail("gen-number-value", "gen_number(bounds=[%r, %r], precision=%r) with draw %r returned %r, the model "
-                     "round(y/prec)*prec gives %r" % (case["lb"], case["ub"], case["prec"], case["u"], x, float(val)),
-                     dict(case, result=res, model=float(val)))
+        if not gen_value_ok(case, x, a):
+            unexplained.append((case, res, a))
+    # A value the model does not produce for the draw that was forced on `random()`: the implementation may draw
+    # differently (another generator, an index on the grid).  The theorem genNumber_bounds holds for EVERY draw, so what
+    # ties the code to it is "some draw u in [0,1) makes the model produce this value": derive it from the value itself.
+    if unexplained:
+        derived = []
+        for case, res, _ in unexplained:
+            w = case["ub"] - case["lb"]
+            u2 = min(max((res["x"] - case["lb"]) / w, 0.0), 1.0 - 2.0 ** -53) if w > 0 else 0.0
+            derived.append(dict(case, u=u2))
+        ans2 = ctx.lean(["c08.gen %s|%s|%s|%s" % (rat(c["lb"]), rat(c["ub"]), rat(c["prec"] or 0), rat(c["u"])) for c in derived])
+        for (case, res, a), c2, a2 in zip(unexplained, derived, ans2):
+            if gen_value_ok(c2, res["x"], a2):
+                ctx.count("gen_value_explained_by_a_draw_derived_from_the_value")
+                continue
+            ctx.fail("gen-number-value", "gen_number(bounds=[%r, %r], precision=%r) returned %r (forced draw %r): inside the box, but the model "
+                     "round(y/prec)*prec does not produce it for that draw (%r) nor for the draw derived from the value (%r); the model of "
+                     "gen_number no longer describes the code" % (case["lb"], case["ub"], case["prec"], res["x"], case["u"],
+                                                                 float(unrat(a.split(" ")[0])), float(unrat(a2.split(" ")[0]))),
+                     dict(case, result=res), no_input=True)
             return
+
+
+def gen_value_ok(case, x, a):
+    val, tie = a.split(" ")
+    val, tie = unrat(val), unrat(tie)
+    prec = case["prec"] or 1e-12
+    z = abs((case["u"] * (case["ub"] - case["lb"]) + case["lb"]) / prec)
+    mag = max(abs(case["lb"]), abs(case["ub"]))
+    if float(tie) < 1e-6 + 1e-14 * z:
+        # the double computation cannot resolve the rounding direction: either neighbour is right, i.e. the value
+        # is within half the precision of y = u*(ub-lb)+lb
+        y = Fr(case["u"]) * (Fr(case["ub"]) - Fr(case["lb"])) + Fr(case["lb"])
+        return abs(Fr(x) - y) <= Fr(prec) / 2 + Fr(4 * REL_SLACK * mag) + Fr(1e-9) * Fr(prec)
+    return close(x, float(val)) or abs(x - float(val)) <= 4 * REL_SLACK * mag
 
 
 # --------------------------------------------------------------------------- stream: update_position
